@@ -176,6 +176,10 @@ def check(run: Run) -> None:
     ok5 = len(gs) == 1 and strip_sites(fa.term_of(gs[0].args[0])) == srcp
     run.check(ok5, "C03.R5", ps, ps.node, "def source comes from inspect.getsource(callable)", "the def path does not re-parse the callable's own source")
 
+    from .c05 import check_rewrite_func
+
+    check_rewrite_func(run, TermCtx(m, max_depth=2, opaque={"_parse_source_for_lambda", "as_literal"}, identity={"lambda_unwrap"}), m, "C03.R5")
+
     # ---------------- R4
     tr = m.find_class("_token_runner", in_module=mod)
     tt = tr.methods.get("tokens_till")
